@@ -19,6 +19,10 @@ func treeSpacesMode(r *explore.Run, gramBase int, editMode string, body func(c *
 		res := e.Call(s)
 		if res.Panic != nil {
 			c.Count("parse_panics(C03)", 1)
+			if r.Property == "C09" {
+				// C09 looks at panics raised while an error's Position is resolved (checkErrorContract)
+				body(c, e, s, res)
+			}
 			return
 		}
 		body(c, e, s, res)
@@ -121,6 +125,9 @@ func C09(r *explore.Run) {
 	treeSpaces(r, 2, func(c *explore.Ctx, e *Entry, s string, res ParseResult) {
 		for sig, d := range checkErrorContract(e, s, res) {
 			c.Violation(sig, e.Name+": "+s, d)
+		}
+		if res.Panic != nil {
+			return
 		}
 		wr, bn := countBad(res.Roots)
 		ne := 0
